@@ -20,7 +20,7 @@
 // database.AllowCommitUpto); wait-for-indexing. A delivery whose header id is beyond precommitted+1 would wait
 // for its predecessor forever in a sequential world: it gets a context that is cancelled at the first wait.
 //
-// Bound: all event sequences up to depth 6 (quick) / 8 (thorough), BFS with state deduplication; when the frontier
+// Bound: all event sequences up to depth 6 (quick) / 10 (thorough), BFS with state deduplication; when the frontier
 // empties earlier the reachable state space is closed and the result holds for every depth.
 //
 // Oracle (after every event, against a boring reference model: lists of committed / precommitted labels):
@@ -167,7 +167,7 @@ func wouldWait(data []byte, precommitted uint64) bool {
 	return len(data) >= 12 && binary.BigEndian.Uint64(data[4:]) > precommitted+1
 }
 
-const watchdog = 30 * time.Second // an event that blocks this long in a sequential world is a deadlock
+const watchdog = 60 * time.Second // an event that blocks this long in a sequential world is a deadlock
 
 func bgCtx() (context.Context, context.CancelFunc) {
 	return context.WithTimeout(context.Background(), watchdog)
@@ -501,7 +501,7 @@ func (w *sworld) skey() string {
 func (w *sworld) fail(sig, detail string) {
 	ev := w.cf.events[w.path[w.step]]
 	c.Violate(lib.Violation{Sig: sig, Detail: fmt.Sprintf("%s\nconfiguration %s, event path: %s\nfailing event: %s", detail, w.cf.name, names(w.cf, w.path[:w.step+1]), ev),
-		Replay: map[string]any{"cfg": w.cf.name, "path": w.path[:w.step+1], "events": names(w.cf, w.path[:w.step+1])}})
+		Replay: replayOf(w.cf, w.path[:w.step+1])})
 	w.stop = true
 }
 
@@ -1017,10 +1017,22 @@ func probeMixedTruncation() {
 	st.Close()
 }
 
+// replay artefact: events are resolved by NAME (indices differ between tiers)
 type replay struct {
-	Cfg  string `json:"cfg"`
-	Path []int  `json:"path"`
+	Cfg    string   `json:"cfg"`
+	Events []string `json:"events"`
 }
+
+func replayOf(cf config, path []int) replay {
+	r := replay{Cfg: cf.Name()}
+	for _, e := range path {
+		r.Events = append(r.Events, cf.EventName(e))
+	}
+	return r
+}
+
+// full: thorough-tier configurations (also used for replays so that every recorded event name resolves)
+func full() bool { return c.Thorough() || c.ReplayPath != "" }
 
 func main() {
 	c = lib.New("C07", "model_checking", 100*time.Second, 25*time.Minute)
@@ -1028,15 +1040,10 @@ func main() {
 	c.Assume("sequential world: one event at a time; the goroutine/gRPC plumbing of pkg/replication.TxReplicator is not executed, its decisions (treat 'tx already committed' as success, AllowCommitUpto from ExportTxByID's answer, discard on 'precommit state diverged') are mirrored by harness events")
 	c.Assume("a delivery that would wait for a missing predecessor gets a context cancelled at its first wait; a blocking primary commit of synchronous replication is replaced by a commit whose context is cancelled at the first wait (the tx stays precommitted) plus observation of the primary's committed frontier after every event")
 	c.Assume("stores are opened with Synced(false): durable == in-memory precommit at the time an API returns; crash behaviour is C03's subject, restart here is a clean Close/Open")
-	defer func() {
-		for _, d := range scratch {
-			os.RemoveAll(d)
-		}
-	}()
-	// the brief's bound is 4 / 6; the state spaces are small enough (most close earlier) to go two levels deeper
+	// the brief asks for 4 / 6; the state spaces are small enough (most close earlier) to go deeper
 	depth := 6
 	if c.Thorough() {
-		depth = 8
+		depth = 10
 	}
 	var cfgs []config
 	cfgs = append(cfgs,
@@ -1044,7 +1051,7 @@ func main() {
 		newSConfig("store-v0", 0, 0, [][]txSpec{histV0}, 0, false, 8, true),
 		newSConfig("store-truncated-primary", 1, 64, [][]txSpec{histTrunc}, 3, false, 8, true),
 		newSConfig("store-window2", 1, 0, [][]txSpec{histV1}, 0, false, 2, false),
-		newSConfig("store-fork-extallow", 1, 0, [][]txSpec{forkMain, forkOld}, 0, true, 8, c.Thorough()),
+		newSConfig("store-fork-extallow", 1, 0, [][]txSpec{forkMain, forkOld}, 0, true, 8, full()),
 	)
 	cfgs = append(cfgs, dbConfigs()...)
 	if c.ReplayPath != "" {
@@ -1055,8 +1062,22 @@ func main() {
 		}
 		for _, cf := range cfgs {
 			if cf.Name() == r.Cfg {
-				k, stop := cf.Run(r.Path)
-				fmt.Printf("replayed %s: %s -> key=%q stop=%v\n", cf.Name(), names(cf, r.Path), k, stop)
+				var path []int
+				for _, n := range r.Events {
+					idx := -1
+					for i := 0; i < cf.NEvents(); i++ {
+						if cf.EventName(i) == n {
+							idx = i
+						}
+					}
+					if idx < 0 {
+						fmt.Fprintln(os.Stderr, "replay: unknown event", n)
+						os.Exit(2)
+					}
+					path = append(path, idx)
+				}
+				k, stop := cf.Run(path)
+				fmt.Printf("replayed %s: %s -> key=%q stop=%v\n", cf.Name(), names(cf, path), k, stop)
 				c.AddEvals(1)
 				c.AddStates(1, 1)
 			}
